@@ -83,7 +83,9 @@ def _rand_atoms(rng):
 
 
 def rand_annos(rng):
-    return rng.choice([["Test"], ["Test"], ["Test"], ["Ignore"], ["Test", "Ignore"], ["Ignore", "Test"], [], ["Before"], ["Test", "Deprecated"], ["Deprecated", "Test"]])
+    return rng.choice([["Test"], ["Test"], ["Test"], ["Ignore"], ["Test", "Ignore"], ["Ignore", "Test"], [], ["Before"], ["Test", "Deprecated"], ["Deprecated", "Test"],
+                       # annotations whose names merely END in Test / Ignore: the method is not a test, nothing is reported for it
+                       ["BeforeTest"], ["AfterTest"], ["JsonIgnore"], ["Test", "JsonIgnore"], ["BeforeTest", "Deprecated"]])
 
 
 def abstract_class(rng, idx):
